@@ -22,13 +22,13 @@ structure Ihw where
   f_active_lanes : Nat
   f_reserved : Nat
   f_id : Nat
-  deriving DecidableEq, Repr
+  deriving DecidableEq, Repr, Inhabited
 structure Tdh where
   f_trigger_type_internal_trigger_no_data_continuation_reserved2 : Nat
   f_trigger_bc_reserved1 : Nat
   f_trigger_orbit : Nat
   f_reserved0_id : Nat
-  deriving DecidableEq, Repr
+  deriving DecidableEq, Repr, Inhabited
 structure Tdt where
   f_lane_status_15_0 : Nat
   f_lane_status_23_16 : Nat
@@ -36,31 +36,31 @@ structure Tdt where
   f_timeout_to_start_timeout_start_stop_timeout_in_idle_res2 : Nat
   f_res0_lane_starts_violation_res1_transmission_timeout_packet_done : Nat
   f_id : Nat
-  deriving DecidableEq, Repr
+  deriving DecidableEq, Repr, Inhabited
 structure Ddw0 where
   f_res3_lane_status : Nat
   f_index : Nat
   f_id : Nat
-  deriving DecidableEq, Repr
+  deriving DecidableEq, Repr, Inhabited
 structure Cdw where
   f_calibration_word_index_lsb_calibration_user_fields : Nat
   f_calibration_word_index_msb : Nat
   f_id : Nat
-  deriving DecidableEq, Repr
+  deriving DecidableEq, Repr, Inhabited
 structure IhwValidator where
-  deriving DecidableEq, Repr
+  deriving DecidableEq, Repr, Inhabited
 structure TdhValidator where
-  deriving DecidableEq, Repr
+  deriving DecidableEq, Repr, Inhabited
 structure TdtValidator where
-  deriving DecidableEq, Repr
+  deriving DecidableEq, Repr, Inhabited
 structure Ddw0Validator where
-  deriving DecidableEq, Repr
+  deriving DecidableEq, Repr, Inhabited
 structure DataWordSanityChecker where
-  deriving DecidableEq, Repr
+  deriving DecidableEq, Repr, Inhabited
 structure IbDataWordValidator where
-  deriving DecidableEq, Repr
+  deriving DecidableEq, Repr, Inhabited
 structure ObDataWordValidator where
-  deriving DecidableEq, Repr
+  deriving DecidableEq, Repr, Inhabited
 def Ihw.from_buf (buf : Bytes) : (Rs.Res Ihw) :=
   (Rs.Res.ok { f_active_lanes := (leField buf 0 4), f_reserved := (leField buf 4 4), f_id := (leField buf 8 2) : Ihw })
 
